@@ -15,6 +15,13 @@ from vf.report import Outcome
 CLAIMED = ['C01', 'C02', 'C03', 'C04', 'C05', 'C06', 'C07', 'C09', 'C10', 'C11', 'C12', 'C13', 'C14', 'C16']
 MAX_WITNESS_DECLS = 12
 MAX_LINES = 12
+# which entry points of the witness program count as a failing input for which property
+PROP_ENTRIES = {
+    'C01': ('try_new', 'new', 'into_inner'), 'C02': ('try_new', 'new', 'into_inner'), 'C07': ('try_new',),
+    'C03': ('TryFrom', 'TryFrom<&str>', 'From', 'FromStr', 'Default'),
+    'C05': ('try_new', 'new', 'TryFrom', 'TryFrom<&str>', 'From', 'FromStr', 'Default', 'validity'),
+    'C11': ('canonical',), 'C13': ('AsRef', 'Deref', 'Borrow', 'Borrow<str>', 'Into', 'into_inner'),
+}
 
 
 # ---------------------------------------------------------------------------------- Verus side
@@ -66,23 +73,27 @@ def verus_part(out: Outcome, prop: str, decls, tag=None):
             a = ann_by_id[did]
             base = r.decl_lines[did][0] + 2     # `pub mod d_x {` + `use super::*;`
             rel = dg['line'] - base
-            ob = None
-            for o in a.obligations:
-                if o.start_line <= rel <= o.end_line:
-                    ob = o
-                    break
+            cands = [o for o in a.obligations if o.kind in ('contract', 'body') and o.start_line <= rel <= o.end_line]
+            ob = next((o for o in cands if o.clause_line == rel), None) or next((o for o in cands if o.kind == 'body'), None)
             in_spec = rel >= a.spec_start_line
-            if dg['verification_failure']:
+            if dg['verification_failure'] and in_spec and (dg['fn'] or '').startswith('lemma_'):
+                lem = [o for o in a.obligations if o.kind == 'lemma' and o.fn == dg['fn']]
+                if lem and prop in lem[0].props:
+                    failed.setdefault('%s::%s' % (did, dg['fn']), {'backend': 'verus', 'message': dg['message'], 'detail': dg['rendered'], 'decl': did})
+            elif dg['verification_failure']:
                 if ob is not None:
                     key = '%s::%s' % (did, ob.fn)
                     props = ob.props
                 else:
-                    key = '%s::%s' % (did, dg['fn'] or 'type_invariant')
+                    key = '%s::%s' % (did, (dg['fn'] or 'derive') + '#type_invariant')
                     props = ['C05']
-                if 'type invariant' in dg['message'] and 'C05' not in props:
-                    props = props + ['C05']
-                if prop in props or (prop == 'C05'):
-                    failed.setdefault(key, {'backend': 'verus', 'message': dg['message'], 'detail': dg['rendered'], 'decl': did})
+                if prop in props:
+                    failed.setdefault(key, {'backend': 'verus', 'message': dg['message'], 'detail': dg['rendered'], 'decl': did,
+                                            'tie': prop == 'C11'})
+                else:
+                    out.extra.setdefault('failing_obligations_of_other_properties', [])
+                    if key not in out.extra['failing_obligations_of_other_properties']:
+                        out.extra['failing_obligations_of_other_properties'].append(key)
             else:
                 # not a verification failure: unsupported construct / type error
                 msg = dg['message']
@@ -101,7 +112,7 @@ def verus_part(out: Outcome, prop: str, decls, tag=None):
             if prop in o.props:
                 nobl += 1
                 if len(out.samples) < 6 and o.kind == 'contract' and (nobl % 37 == 1):
-                    out.samples.append({'obligation': '%s::%s' % (a.decl.id, o.fn), 'clause': o.clause,
+                    out.samples.append({'obligation': '%s::%s' % (a.decl.id, o.fn), 'clause': o.clause_text or o.clause, 'meaning': o.clause,
                                         'declaration': a.decl.source().strip(), 'backend': 'verus'})
         if prop == 'C07' and a.decl.has_validation and a.decl.custom_validation is None:
             nobl += 1   # error_enum_shape (type-checks the wildcard-free spec match against the enum)
@@ -168,6 +179,13 @@ def finalize(out: Outcome):
         key = f['key']
         d = f.get('decl_obj')
         wit = f.get('witness')
+        if wit and out.prop in PROP_ENTRIES:
+            wit = [w for w in wit if w.get('entry') in PROP_ENTRIES[out.prop]]
+        if f.get('tie') and not wit:
+            # the obligation ties the spec functions to the code (it belongs to another property);
+            # without a failing input for THIS property it is undecided, not a violation
+            out.undecided.append('%s: contract %s (tie between code and spec) fails; %s is undecided for this declaration' % (out.prop, key, out.prop))
+            continue
         payload = {
             'property': out.prop, 'obligation': key, 'backend': f.get('backend'),
             'declaration': d.source() if d is not None else f.get('declaration', ''),
